@@ -165,7 +165,7 @@ def plan(tier):
     parts = 6 if tier == 'quick' else 16
     specs = [{'kind': 'shapes', 'depth': depth, 'part': i, 'parts': parts} for i in range(parts)]
     k = 10 if tier == 'quick' else 16
-    specs += [{'kind': 'programs', 'n': 600 if tier == 'quick' else 20000, 'k': i} for i in range(k)]
+    specs += [{'kind': 'programs', 'n': 1200 if tier == 'quick' else 20000, 'k': i} for i in range(k)]
     return specs
 
 
